@@ -43,7 +43,7 @@ def cron_entry(i: int) -> Any:
                    st.lists(st.integers(0, 59), min_size=2, max_size=4).map(lambda l: ",".join(map(str, l))),
                    st.tuples(st.integers(0, 30), st.integers(31, 59), st.integers(2, 4)).map(lambda t: f"{t[0]}-{t[1]}/{t[2]}"))
     rest = st.sampled_from(["* * * *", "* * * *", "* * * *", "*/2 * * *", "0-23 * * *", "* * * 0-6", "* 1-31 * *"])
-    off = st.one_of(st.none(), st.none(), st.fixed_dictionaries({"td_us": st.sampled_from([90 * SEC, -30 * SEC, 3600 * SEC, 30 * MIN + 5])}),
+    off = st.one_of(st.none(), st.none(), st.fixed_dictionaries({"td_us": st.sampled_from([90 * SEC, -30 * SEC, 3600 * SEC, 30 * MIN + 5, 86400 * SEC, -86400 * SEC, 7 * 86400 * SEC + 3600 * SEC])}),
                     st.fixed_dictionaries({"zone": st.sampled_from(["Asia/Kathmandu", "Europe/Berlin"])}))
     good = st.tuples(mf, rest, off).map(lambda t: {"cron": t[0] + " " + t[1], "offset": t[2]})
     bad = st.just({"cron": "*/5 * * *", "offset": None, "malformed": True})
